@@ -15,6 +15,7 @@ DECIDED = ("Each bitboard operation's MIR is reduced (K4: inlining, constant fol
            "R5 the BMI2 nth: for every position z of the selected bit it returns square z and removes exactly the bits <= z, past the end it empties the iterator and returns None, and the "
            "selector is pdep(1 << n, bits) (0 when n >= 64); R6 operator impls delegate to the named methods; R7 FromIterator folds with set / |=.")
 DECIDED = DECIDED + ' Shift and pop formulas are compared with the canonical ones by evaluation on sample words (0, all ones, all single bits, edge masks, pseudo-random words), so any equivalent formula is accepted.'
+DECIDED = DECIDED + ' R4: the path of pop is keyed by trailing_zeros of the NonZero view or of the word itself on a path that excluded the empty board.'
 NOT_DECIDED = ("ascending iteration order beyond 'each step removes the lowest set bit'; the semantics of the intrinsics (count_ones, trailing_zeros, swap_bytes, pdep) are trusted; "
                "an implementation by a different bit trick would trip these term rules although correct (stated tolerance)")
 EXPLANATION = "K4 normalised dataflow terms compared with canonical formulas; the nth fast path is tabulated over all 65 outcomes of the bit-position computation."
